@@ -148,6 +148,18 @@ theorem write_is_one_send_or_nothing :
     Gen.pipeWrite_returns = ["0, ErrConnectionClosed", "0, ErrTimeout", "0, ErrConnectionClosed", "len(p), nil"] := by
   decide
 
+/-- Regenerated structural fact: Write does not retain the caller's slice.  The value it sends on the channel is the
+    variable `b`, `b` is only ever `acquireByteBuffer()` (a pooled buffer of its own), its content is
+    `append(b.b[:0], p...)` (a COPY of p), and p is used nowhere else except `len(p)`.  This discharges what the model
+    takes for granted: `Dir.write` stores the VALUE of the payload at the time of the call (`chan ++ [p]`), so
+    whatever the writer does with its slice afterwards cannot change what the peer reads (io.Writer: "Write must not
+    modify the slice data … Implementations must not retain p").  A Write that queues a buffer aliasing p breaks it. -/
+theorem write_copies_payload :
+    Gen.pipeWrite_sentValues = ["b", "b"] ∧ Gen.pipeWrite_bufDefs = ["acquireByteBuffer()"] ∧
+    Gen.pipeWrite_bufFills = ["b = append(b.b[:0], p...)"] ∧
+    Gen.pipeWrite_usesOfPayload = ["append(b.b[:0], p...)", "len(p)"] := by
+  decide
+
 /-- model side of the same fact: a Write that does not return `ok` leaves the stream untouched, and `ok n` means
     n = len(p) bytes were appended to what the peer will read -/
 theorem write_count_is_what_the_peer_gets (cap : Nat) (stopped : Bool) (s : Dir) (p : Bytes) :
